@@ -13,7 +13,6 @@ import (
 	"os"
 	"path/filepath"
 	"strings"
-	"time"
 
 	gno "github.com/gnolang/gno/gnovm/pkg/gnolang"
 	"github.com/gnolang/gno/gnovm/pkg/packages"
@@ -85,22 +84,6 @@ func New(root, workDir string, overlays ...Overlay) (*Env, error) {
 	e := &Env{root: root, out: &bytes.Buffer{}}
 	e.base, e.store = test.TestStore(root, e.out, pl)
 	return e, nil
-}
-
-// TraceLoads wraps the package getter so that every package load is reported.
-func (e *Env) TraceLoads(f func(pkgPath string, d time.Duration)) {
-	type gs interface {
-		GetPackageGetter() gno.PackageGetter
-		SetPackageGetter(gno.PackageGetter)
-	}
-	st := e.store.(gs)
-	inner := st.GetPackageGetter()
-	st.SetPackageGetter(func(pkgPath string, store gno.Store) (*gno.PackageNode, *gno.PackageValue) {
-		t0 := time.Now()
-		pn, pv := inner(pkgPath, store)
-		f(pkgPath, time.Since(t0))
-		return pn, pv
-	})
 }
 
 // Preload loads the given packages (and their imports) into the base store.
